@@ -27,8 +27,9 @@ namespace {
 // ('|' separates the parts; any part may be empty). "" is a zero-length append (trace::Sink does that for empty names).
 struct Pattern { std::vector<std::vector<std::string>> prod; bool reenter; };
 Pattern pattern(int id, int bs) {
-  // 18 distinct symbols: no chunk of big1 repeats for bs <= 6; the payload is binary (a NUL and a 0xff byte, already in the first three)
-  static const char A1[] = "a\0\xff" "defgh0123456789";
+  // 18 distinct symbols: no chunk of big1 repeats for bs <= 6; the payload is binary: it starts with a NUL followed by a 0xff byte (both
+  // in the same buffer for every buff_size > 1, so a str*-style copy loses the second)
+  static const char A1[] = "\0\xff" "adefgh0123456789";
   std::string big1(3 * bs, 'q'), big2(bs + 1, 'w'), eq(bs, 'e');
   for (size_t i = 0; i < big1.size(); i++) big1[i] = A1[i % 18];
   for (size_t i = 0; i < big2.size(); i++) big2[i] = (char)('i' + i % 8);          // i..p
@@ -135,7 +136,7 @@ struct Session { int bs, mn, mx; Pattern pat; bool with_cb; };
 //   5  two sessions with DIFFERENT configurations: the first is pattern 0 (fills buffers, grows the pool, blocks at the limit) under
 //      (2,2,3) when the second has buff_size 1, else under (1,1,1); the second is pattern A under the command-line configuration
 //   6  like 5, the first session under (1,1,3) when the second has buff_size > 1, else (2,1,3)   (pool grows by two, larger<->smaller buffers)
-//   7  like 0 while a SECOND pipe with another buffer size ((2,1,2) or (1,1,2)), its own sink and its own producer (the main thread, "m") is alive: set up
+//   7  like 0 while a SECOND pipe with another buffer size ((2,1,2) or (1,1,2)), its own sink and its own producer (the main thread, "mn") is alive: set up
 //      before, fed concurrently, cleaned up after the first; the oracle is applied to each pipe separately (nothing may cross over)
 //   8  three sessions on one object: pattern 1 WITHOUT a callback (only: cleanup returns), then a session with no append at all
 //      (stop may arrive before the thread's first wait), then pattern A with the full oracle
@@ -159,7 +160,7 @@ void scenario(int bs, int mn, int mx, int code) {
       if (r || (k + pass) % 2 == 0) pipe.cleanup();    // must return (a pipe that accepted the configuration is cleaned up like any other)
     }
   }
-  Pattern P2{{{"m"}}}; const int bs2 = bs == 1 ? 2 : 1;
+  Pattern P2{{{"mn"}}}; const int bs2 = bs == 1 ? 2 : 1;
   if (life == 7) { c2.p = new AsyncPipe; g_ctx[1] = &c2; set_up(c2, bs2, 1, 2, order, true); }
   for (size_t si = 0; si < sessions.size(); si++) { Session &S = sessions[si]; Pattern &P = S.pat;
     c1.out.clear(); c1.max_block = 0; c1.reenter = P.reenter; c1.z_issued = c1.z_mandatory = c1.cleanup_begun = false;
